@@ -284,6 +284,30 @@ Definition dijkstra_model (V : nat) (E : list edge) (order : list nat) (seeds : 
 Definition floyd_model (V : nat) (E : list edge) (order : list nat) (seeds : list nat) : list dist_t :=
   map (fun s => dijkstra_model V E order [s]) seeds.
 
+(* floyd(seed=None) as written (graph.py, floyd): `if seed is None: seed = np.arange(self.V)`;
+   `dg = None`; for every entry s of seed IN THE ORDER GIVEN: the first dijkstra(s) becomes dg,
+   every later one is appended below by np.vstack((dg, self.dijkstra(s))).  So the result is None
+   for an empty seed array, and otherwise row i is the distance map of seed[i] (repeated seeds give
+   repeated rows, unsorted seeds give rows in the caller's order). *)
+Definition floyd_seeds (V : nat) (seed : option (list nat)) : list nat :=
+  match seed with None => seq 0 V | Some s => s end.
+Definition floyd_step (V : nat) (E : list edge) (order : list nat)
+           (dg : option (list dist_t)) (s : nat) : option (list dist_t) :=
+  match dg with
+  | None => Some [dijkstra_model V E order [s]]
+  | Some rows => Some (rows ++ [dijkstra_model V E order [s]])
+  end.
+Definition floyd_code (V : nat) (E : list edge) (order : list nat) (seed : option (list nat))
+  : option (list dist_t) :=
+  fold_left (floyd_step V E order) (floyd_seeds V seed) None.
+(* every row of a floyd result certified against its own seed *)
+Fixpoint floyd_rows_check (V : nat) (E : list edge) (seeds : list nat) (rows : list dist_t) : bool :=
+  match seeds, rows with
+  | [], [] => true
+  | s :: ss, r :: rs => sp_check V E [s] r && floyd_rows_check V E ss rs
+  | _, _ => false
+  end.
+
 (* voronoi_labelling (graph.py:882-929): same loop, scalar relaxation in CSR
    order (each update sees the previous ones), label copied from the winner *)
 Definition vrelax1 (dwin : Z) (lwin : Z) (st : dist_t * list Z * list hitem) (p : nat * Z)
@@ -365,6 +389,9 @@ Definition mkE (l : list (Z * Z * Z)) : list edge :=
 Definition nats (l : list Z) : list nat := map Z.to_nat l.
 Definition mkd (l : list Z) : dist_t := map (fun x => if x <? 0 then None else Some x) l.
 Definition und (d : dist_t) : list Z := map (fun o => match o with Some x => x | None => -1 end) d.
+(* harness view: None -> [], rows as integer lists (-1 = inf) *)
+Definition floyd_flat (V : nat) (E : list edge) (order : list nat) (seed : option (list nat)) : list (list Z) :=
+  match floyd_code V E order seed with None => [] | Some rows => map und rows end.
 Fixpoint zl_eqb (a b : list Z) : bool :=
   match a, b with
   | [], [] => true
